@@ -205,6 +205,12 @@ Print Assumptions C05_error_line_col.
         also well formed outside math mode
         ([C05_fault_closing_math_same_partial]): the formula closes early, its own
         closing delimiter is rejected;
+      - [$] inserted in a [$ $] formula (after at least one character of its
+        body) whose remaining body is also well formed outside math mode and
+        whose later siblings are also well formed in math mode
+        ([C05_fault_dollar_in_dollars(_nested)_partial]): the formula closes
+        early, its own closing [$] opens a formula that is never closed (top
+        level) / runs into the enclosing closing delimiter (nested body);
       - [{] inserted in a group, itself in a chain of directly nested groups that
         stands at top level ([C05_fault_opening_brace_in_groups_partial]: the
         outermost group of the chain is never closed, error 6 right after its
@@ -213,7 +219,7 @@ Print Assumptions C05_error_line_col.
         the formula's closing delimiter).
     NOT covered (differential testing only): [}] inserted in a macro argument
     that is not the last one or that changes the math mode (what follows is read
-    as the next argument / in another mode), [$] used as a closing delimiter,
+    as the next argument / in another mode),
     [{] inserted in a macro argument or in a group chain standing in a [$ $]
     formula or macro argument, an opening delimiter inserted in a
     [$ $] formula, a math delimiter or math-body environment in front of items
@@ -369,6 +375,42 @@ Theorem C05_fault_closing_math_same_partial : forall cx path b ws k tr a l1 l2 d
     = PErr e (q + 2)
     /\ pe_pos e = Some q /\ pe_what e = 4.
 Proof. exact fault_close_math_same. Qed.
+
+(** ** A [$] inserted in a [$ $] formula ([f = FMath b ws MDollar tr a], after at
+    least one character of its body) closes it early; the rest [l2] of the body
+    is read in the enclosing body (hypothesis: well formed there) and the
+    formula's own closing [$] OPENS a new formula that takes in what follows
+    (hypothesis: the later siblings [a] are well formed in math mode and do not
+    start with [$]).  At top level that formula is never closed: error 6 right
+    after that [$], raised at the end of input; in a nested body it runs into
+    the enclosing closing delimiter, rejected there. *)
+Theorem C05_fault_dollar_in_dollars_partial : forall cx b ws tr a l1 l2 dtr,
+  let f := FMath b ws MDollar tr a in
+  let ps0 := walker_state cx in
+  ok_doc cx (zdoc [f] l1 l2 dtr) = true -> unparse_items l1 <> [] ->
+  ok_items cx ps0 l2 (hd_error (tr ++ [36%N])) = true ->
+  ok_items cx (ps_enter_math ps0 (Some [36%N])) a (hd_error dtr) = true ->
+  hd_not (fun c => N.eqb c 36) (unparse_items a ++ dtr) ->
+  let s := zleft [f] l1 ++ [36%N] ++ zright [f] l2 dtr in
+  let q := length (unparse_items (b ++ Math ws MDollar l1 [] :: l2)) + length tr + 1 in
+  exists e, parse_top s false cx ps0 = PErr e (length s) /\ pe_pos e = Some q /\ pe_what e = 6.
+Proof. exact fault_dollar_early_top. Qed.
+
+Theorem C05_fault_dollar_in_dollars_nested_partial : forall cx path g b ws tr a l1 l2 dtr c,
+  let f := FMath b ws MDollar tr a in
+  let hs := lp_state cx (walker_state cx) (lefts (path ++ [g])) in
+  ok_doc cx (zdoc ((path ++ [g]) ++ [f]) l1 l2 dtr) = true -> closer_of g = Some c -> unparse_items l1 <> [] ->
+  ok_items cx hs l2 (hd_error (tr ++ [36%N])) = true ->
+  ok_items cx (ps_enter_math hs (Some [36%N])) a (hd_error (frame_tr g ++ stray_text c)) = true ->
+  hd_not (fun c0 => N.eqb c0 36) (unparse_items a ++ frame_tr g ++ stray_text c) ->
+  let q := length (lp_text (lefts (path ++ [g]))) + length (unparse_items (b ++ Math ws MDollar l1 [] :: l2))
+           + length tr + 1 + length (unparse_items a) + length (frame_tr g) in
+  exists e,
+    parse_top (zleft ((path ++ [g]) ++ [f]) l1 ++ [36%N] ++ zright ((path ++ [g]) ++ [f]) l2 dtr)
+              false cx (walker_state cx)
+    = PErr e (q + length (stray_text c))
+    /\ pe_pos e = Some q /\ pe_what e = stray_what c.
+Proof. exact fault_dollar_early_nested. Qed.
 
 (** ** An opening brace inserted in a group: the group's closing brace closes
     the NEW group, the enclosing group's closing brace closes the group, and so
@@ -559,6 +601,26 @@ Proof.
   split; [reflexivity|]. split; [reflexivity|]. eexists; repeat split.
 Qed.
 
+(** [a $b c$ d]: [$] inserted between [b] and [ c]: [$b$], then [ c], then the
+    old closing [$] opens a formula [ d] that never ends (error 6 located at
+    offset 8); and the same inside a group: rejected at the group's [}] *)
+Example C05_fault_dollar_in_dollars_nonvacuous :
+  let l1 := [Text [] [98]] in let l2 := [Text [32] [99]] in
+  let g := FGrp [] [] [] [] in
+  ok_doc default_ctx (zdoc [FMath [Text [] [97]] [32] MDollar [] [Text [32] [100]]] l1 l2 []) = true /\
+  (exists e, parse_top (zleft [FMath [Text [] [97]] [32] MDollar [] [Text [32] [100]]] l1 ++ [36]
+                        ++ zright [FMath [Text [] [97]] [32] MDollar [] [Text [32] [100]]] l2 []) false
+                       default_ctx (walker_state default_ctx)
+             = PErr e 10 /\ pe_pos e = Some 8%nat /\ pe_what e = 6%nat) /\
+  ok_doc default_ctx (zdoc (([] ++ [g]) ++ [FMath [Text [] [97]] [32] MDollar [] [Text [32] [100]]]) l1 l2 []) = true /\
+  (exists e, parse_top (zleft (([] ++ [g]) ++ [FMath [Text [] [97]] [32] MDollar [] [Text [32] [100]]]) l1 ++ [36]
+                        ++ zright (([] ++ [g]) ++ [FMath [Text [] [97]] [32] MDollar [] [Text [32] [100]]]) l2 [])
+                       false default_ctx (walker_state default_ctx)
+             = PErr e 12 /\ pe_pos e = Some 11%nat /\ pe_what e = 2%nat).
+Proof.
+  vm_compute. split; [reflexivity|]. split; [eexists; repeat split|]. split; [reflexivity|]. eexists; repeat split.
+Qed.
+
 Print Assumptions C05_zdoc_text.
 Print Assumptions C05_fault_closing_partial.
 Print Assumptions C05_fault_closing_any_suffix_partial.
@@ -567,5 +629,7 @@ Print Assumptions C05_fault_opening_nested_partial.
 Print Assumptions C05_fault_opening_any_suffix_partial.
 Print Assumptions C05_fault_closing_brace_in_groups_partial.
 Print Assumptions C05_fault_closing_math_same_partial.
+Print Assumptions C05_fault_dollar_in_dollars_partial.
+Print Assumptions C05_fault_dollar_in_dollars_nested_partial.
 Print Assumptions C05_fault_opening_brace_in_groups_partial.
 Print Assumptions C05_fault_opening_brace_in_groups_math_partial.
